@@ -57,6 +57,10 @@ def mk_typed(it, st, T, tag='v', concrete=False, search_ok=True):
     x.attrs['_string'] = it.concat(interleave('/', [v for _, v in vals]))
     x.attrs['_type'] = T
     x.attrs['_fields'] = PDict(vals)
+    # the object then goes through the real TypedSid._init (as the factory does): state a constructor adds exists on the harness objects too
+    try: init = it.getattr(x, '_init')
+    except Raised: init = None
+    if init is not None: it.call(init, [x.attrs['_string'], x.attrs['_type'], x.attrs['_fields']], {})
     return x, vals
 
 # ------------------------------------------------------------------ native side
